@@ -13,7 +13,7 @@ CHECKS = {
         level="exploration",
         engine="E1-enum",
         technique="bounded-exhaustive enumeration of data paths (carrier chains with an exact oracle, filter/method/operator compositions over tainted and already-escaped atoms with a taint oracle, the ranked program space against a reference interpreter that tracks a safe bit)",
-        text="Three families under *.html / *.xml names, none using `safe`, `autoescape false` or a markup-returning function. F1: 9 sources (context string holding all of < > \" ' &, two literals, list, map, nested, object, int, list display) flow through every chain of k <= 2 (thorough 3) of 24 identity carriers (set, set block, macro argument, macro closure, call block, caller argument, filter block, include, loop, namespace, if expression, if statement, list/map round trip, first, with, block + self.block(), from-import, import-as, autoescape block, e, string, single-item join, default) in 6 layouts (flat html, flat xml, child block, included template, loop body, macro body) and are printed; the output must equal the source text escaped exactly once. F2: 233 value expressions over tainted strings, captured (already escaped) strings, lists, maps, nested containers, an object, and their concatenations, repetitions, subscripts, slices, displays, dict()/namespace()/cycler() round trips x every registered filter except `safe` (54, discovered at run time, contrib included) in three application forms and 27 pycompat methods x every argument tuple of arity <= 2 over 11 atoms and 16 keyword names, then every ordered filter pair with arity <= 1: no raw < > \" ' may reach the output (tojson: no raw < > '). F3: every depth-1 and depth-2 program of G under t.html over 2 tainted contexts must render without a raw metacharacter and identically to R (which escapes non-safe values on output and marks captures safe), and the include/extends/import corpus must render without a raw metacharacter.",
+        text="Three families under *.html / *.xml names, none using `safe`, `autoescape false` or a markup-returning function. F1: 9 sources (context string holding all of < > \" ' &, two literals, list, map, nested, object, int, list display) flow through every chain of k <= 2 (thorough 3) of 24 identity carriers (set, set block, macro argument, macro closure, call block, caller argument, filter block, include, loop, namespace, if expression, if statement, list/map round trip, first, with, block + self.block(), from-import, import-as, autoescape block, e, string, single-item join, default) in 6 layouts (flat html, flat xml, child block, included template, loop body, macro body) and are printed; the output must equal the source text escaped exactly once. F2: 233 value expressions over tainted strings, captured (already escaped) strings, lists, maps, nested containers, an object, and their concatenations, repetitions, subscripts, slices, displays, dict()/namespace()/cycler() round trips x every registered filter except `safe` (54, discovered at run time, contrib included) in three application forms and 27 pycompat methods x every argument tuple of arity <= 2 over 11 atoms and 16 keyword names, then every ordered filter pair with arity <= 1: no raw < > \" ' may reach the output (tojson: no raw < > '). F3: every depth-1 and depth-2 program of G under t.html over 2 tainted contexts must render without a raw metacharacter and identically to R (which escapes non-safe values on output and marks captures safe), and the include/extends/import corpus must render without a raw metacharacter. F4: 864 spellings of an HTML / XML template name (dotted directories and stems, dot files, other extensions in front, .j2 / .jinja / .jinja2 behind) in 6 roles (main template, with captures, included fragment, imported macro library, layout of a child, child of a layout) with the exact escaped-once oracle.",
         note="Double escaping after a transformation of a captured value (concatenation, slicing, a filter returning a plain string) is counted as an outcome, not judged. 90% of the F2 compositions are argument errors; the histogram in the evidence file shows how many rendered with tainted text.",
         design_ref="2/C02",
     ),
@@ -21,7 +21,7 @@ CHECKS = {
         level="exploration",
         engine="E1-enum",
         technique="bounded-exhaustive enumeration of inheritance chains x per-level block assignments x extends forms against an independent block resolver; enumerated include/import/error cases under a wall cap",
-        text="Every chain of 1..3 (thorough 4) templates in which each non-root template gives each block of {a, b nested in a, c} one of {absent, override, super() before, override around super(), super() twice} (125 assignments per level; 3.1e4 chains of length 3 quick, 3.9e6 of length 4 thorough), with and without block c in the root, with the most derived template extending by static name, by a name from the context, inside a taken if and inside a not-taken if, is rendered - directly and, for chains up to length 2 (thorough 3), in 8 further ways (included at top level, in a child block, in a macro called twice, in a loop body; include captured by a set block in a plain host and at the top level of an extending host, there also below a filter block and below a call block) - and compared with a 60-line resolver (most derived definition wins, super() moves a per-block cursor to the next definition, nested block tags render the most derived definition, text outside blocks of extending templates is discarded, super() without a parent fails). 50 hand-written cases cover include placements (top level, loop, macro, block, with, child block), name forms (string, list with missing entries, missing with/without ignore missing, dynamic, non-string), what an import exposes, and the error family (extends/include cycles of length 1..3, double extends, missing parent, super() without parent or outside a block, required blocks, self.block()), each under a 10 s wall cap so a hang counts as a failure; every fixed case that renders is also included 120 times from one host render and must give its output 120 times (nothing a composition charges per render may be left behind).",
+        text="Every chain of 1..3 (thorough 4) templates in which each non-root template gives each block of {a, b nested in a, c} one of {absent, override, super() before, override around super(), super() twice} (125 assignments per level; 3.1e4 chains of length 3 quick, 3.9e6 of length 4 thorough), with and without block c in the root, with the most derived template extending by static name, by a name from the context, inside a taken if and inside a not-taken if, is rendered - directly and, for chains up to length 2 (thorough 3), in 8 further ways (included at top level, in a child block, in a macro called twice, in a loop body; include captured by a set block in a plain host and at the top level of an extending host, there also below a filter block and below a call block) - and compared with a 60-line resolver (most derived definition wins, super() moves a per-block cursor to the next definition, nested block tags render the most derived definition, text outside blocks of extending templates is discarded, super() without a parent fails). 50 hand-written cases cover include placements (top level, loop, macro, block, with, child block), name forms (string, list with missing entries, missing with/without ignore missing, dynamic, non-string), what an import exposes, and the error family (extends/include cycles of length 1..3, double extends, missing parent, super() without parent or outside a block, required blocks, self.block()), each under a 10 s wall cap so a hang counts as a failure; every fixed case that renders is also included 120 times from one host render and must give its output 120 times (nothing a composition charges per render may be left behind). Block fragments through a reused state: after a full render of every chain up to length 2 (thorough 3) the blocks a, b, c, a, b are rendered through State::render_block, with a call in the root's block a that fails exactly once at every position 1..6 or never; every fragment must equal the resolver's.",
         note="The resolver is the trusted base for chains; the fixed cases carry hand-written expectations taken from the documentation. One expectation was corrected during calibration (include of an empty list renders nothing; the property does not demand an error there).",
         design_ref="2/C06",
     ),
@@ -29,7 +29,7 @@ CHECKS = {
         level="exploration",
         engine="E1-enum",
         technique="bounded-exhaustive enumeration of the ranked program space rendered by the engine and by an independent reference interpreter (differential)",
-        text="Every program of the depth-1 and depth-2 generator spaces (1.96e5 programs: all nestings of if/else, for with else / filter / unpacking / recursion, set, set-block, with, macros with defaults and keyword arguments, call blocks, filter blocks, autoescape blocks, break/continue, with leaves that read and write variables inside and outside every scope) under 3 contexts is rendered by the engine and by R, a 500-line tree walker over its own value type implementing the documented rules (scope per construct, clean scope per loop iteration, if-branches and template level persist, macro closures with definition-frame values, argument binding, caller, loop recursion, for-else, loop filters, unpacking, safe-string capture under auto-escaping); outputs must be identical or both must fail. Thorough adds every 41st depth-3 program (3.7e6 evaluations). A closure family (2048 programs) assigns a name inside each of 16 enclosing constructs (if/else arms taken and not, for/else with 0 or 1 iterations, loop else bodies reading names the loop bound, with, filter, set block, autoescape, nested ifs) in 4 assignment forms within a macro, a macro whose outer value changes after declaration, a call block in a loop and a macro in a macro, and reads it inside and after the construct. The loop object clause prints every field in every iteration for 11 sequence kinds (list, tuple, map keys, items, range, lazy iterable, string, reversed, sliced, |list, filtered loop) x lengths 0..4 against directly computed values.",
+        text="Every program of the depth-1 and depth-2 generator spaces (1.96e5 programs: all nestings of if/else, for with else / filter / unpacking / recursion, set, set-block, with, macros with defaults and keyword arguments, call blocks, filter blocks, autoescape blocks, break/continue, with leaves that read and write variables inside and outside every scope) under 3 contexts is rendered by the engine and by R, a 500-line tree walker over its own value type implementing the documented rules (scope per construct, clean scope per loop iteration, if-branches and template level persist, macro closures with definition-frame values, argument binding, caller, loop recursion, for-else, loop filters, unpacking, safe-string capture under auto-escaping); outputs must be identical or both must fail. Thorough adds every 41st depth-3 program (3.7e6 evaluations). A closure family (2048 programs) assigns a name inside each of 16 enclosing constructs (if/else arms taken and not, for/else with 0 or 1 iterations, loop else bodies reading names the loop bound, with, filter, set block, autoescape, nested ifs) in 4 assignment forms within a macro, a macro whose outer value changes after declaration, a call block in a loop and a macro in a macro, and reads it inside and after the construct. The loop object clause prints every field in every iteration for 11 sequence kinds (list, tuple, map keys, items, range, lazy iterable, string, reversed, sliced, |list, filtered loop) x lengths 0..4 against directly computed values. A loop-filter family (8 filter expressions naming loop, the enclosing target or outer names x 6 constructs around the filtered loop x 3 nesting depths) and an immediate second render of every program (same result required) complete the space.",
         note="R is the trusted base; every disagreement was triaged by hand (three engine defects fixed, two gaps in R closed). R deliberately leaves undefined: includes/blocks, `set` in a for-else body read afterwards, macro defaults referring to parameters, conditional expressions; such programs are reported as 'outside R'.",
         design_ref="2/C03",
     ),
@@ -53,7 +53,7 @@ CHECKS = {
         level="model_checking",
         engine="E2-bcmc",
         technique="explicit-state model checking of compiled instruction streams under an abstract VM (all control-flow paths), bound to the real VM by trace conformance through verif_hooks probes",
-        text="For every generated program (complete depth-1 space with blocks, includes, macros, call blocks, set/filter/autoescape/with blocks, recursive and filtered loops and break/continue, in three wrappings: plain with sentinel text, as child block under extends, as included template; a third of the depth-2 space quick / all of it plus a stride of depth 3 thorough; 11 hand-written shapes; a scope-contents family (6 scope-opening constructs alone and in pairs x 10 carriers that open no scope of their own - if/else arms, else bodies of empty and fully filtered loops, filter, autoescape, combinations - x 5 ways of binding a shadowing and a new name: afterwards the shadowed name must be back and the new one gone); every way of leaving a loop by break / continue, unconditional and conditional, through every sequence of 1..2 (thorough 3) nested scoped constructs out of {with, set block, filter block, autoescape on, autoescape off, if, call block}) each instruction stream and each entry point (main, every block, every macro body) is explored exhaustively by BFS over abstract states (pc, operand stack of Opaque|Int, frame kinds with loop iteration count and recursion return, capture stack, auto-escape depth, extends-pending, recursion depth) with every conditional jump, short-circuit jump and Iterate taken both ways; invariants on every state/transition: frame/capture/escape pops hit something the same evaluation pushed and of the right kind, no operand pop below the entry height, everything balanced at every end, every reachable state can reach an end. The model is bound to the code: each program is rendered under 3 contexts with probes recording every executed instruction, and every concrete trace must be a path of the explored abstract graph (same pc, operand height, frame kinds, capture and auto-escape depth at every step); real evaluations must also leave frames, captures and the auto-escape mode as they found them and a sentinel after the outermost construct must reach the output.",
+        text="For every generated program (complete depth-1 space with blocks, includes, macros, call blocks, set/filter/autoescape/with blocks, recursive and filtered loops and break/continue, in three wrappings: plain with sentinel text, as child block under extends, as included template; a third of the depth-2 space quick / all of it plus a stride of depth 3 thorough; 17 hand-written shapes; a scope-contents family (6 scope-opening constructs alone and in pairs x 10 carriers that open no scope of their own - if/else arms, else bodies of empty and fully filtered loops, filter, autoescape, combinations - x 5 ways of binding a shadowing and a new name: afterwards the shadowed name must be back and the new one gone); every way of leaving a loop by break / continue, unconditional and conditional, through every sequence of 1..2 (thorough 3) nested scoped constructs out of {with, set block, filter block, autoescape on, autoescape off, if, call block}) each instruction stream and each entry point (main, every block, every macro body) is explored exhaustively by BFS over abstract states (pc, operand stack of Opaque|Int, frame kinds with loop iteration count and recursion return, capture stack, auto-escape depth, extends-pending, recursion depth) with every conditional jump, short-circuit jump and Iterate taken both ways; invariants on every state/transition: frame/capture/escape pops hit something the same evaluation pushed and of the right kind, no operand pop below the entry height, everything balanced at every end, every reachable state can reach an end. The model is bound to the code: each program is rendered under 3 contexts with probes recording every executed instruction, and every concrete trace must be a path of the explored abstract graph (same pc, operand height, frame kinds, capture and auto-escape depth at every step); real evaluations must also leave frames, captures and the auto-escape mode as they found them and a sentinel after the outermost construct must reach the output. The abstract machine also requires that no operand is left on the stack when a stream ends (the undefined left by a discarding capture excepted), and the hand-written shapes include recursive loops with else branches.",
         note="Bounds: loops iterate 0..2 times, loop recursion nests <= 3. Include/CallBlock/FastSuper/macro calls are atomic in the caller and each callee stream is explored on its own. A conformance failure is a machinery error (key MACHINERY:conformance). `do` and *args calls are outside the alphabet.",
         design_ref="2/C05",
     ),
@@ -69,7 +69,7 @@ CHECKS = {
         level="exploration",
         engine="E5-crash",
         technique="bounded-exhaustive enumeration of ranked input spaces with a process-level crash oracle in supervised child processes (rlimits, panic capture, death attribution)",
-        text="Six ranked families are enumerated completely inside their bounds, each case = load + render + formatting the error in five forms, in child processes under RLIMIT_AS with panics caught and aborts/signals attributed to the exact case: every string of up to 4 (thorough 5) fragments over a 24-fragment delimiter/quote/escape alphabet as template and as expression; every sequence of up to 3 (4) tags over 38 tags; every built-in and contrib filter/test/method x 8 receivers and every function x every argument tuple of arity <= 2 (3) over a 14-value boundary alphabet; 12 operators and 11 size-taking built-ins over all pairs of the edge value alphabet; 31 chain/nesting shapes at depths 150/151/2000/20000/200000 on the main thread and a 2 MiB thread in an opt-level-0 build (thorough also checked-release); every program of the depth-2 generator space with loop controls; 22 run-time value chains (a loop applies one lazy wrapping step - concatenation on either side, chain, slice, reverse, map, select, unique, dict merge, string and tuple concatenation, batch, zip - to an accumulator 33 / 1000 / 30 000 times, then the result is measured, iterated, compared, printed and dropped) in both builds; every string literal whose body is a sequence of at most 3 (4) pieces out of 28 escape forms; every format specification flags x width x precision x conversion x value (7 x 10 x 10 x 18 x 7, numbers up to 2^64) through the format filter and str.format; 15 kinds of objects that outlive the construct that made them (loop objects after exhaustion / break / recursion, caller, macros from loops and macros, self, namespaces, cycler, joiner) x 33 ways of using them afterwards. 1.5e6 cases quick.",
+        text="Six ranked families are enumerated completely inside their bounds, each case = load + render + formatting the error in five forms, in child processes under RLIMIT_AS with panics caught and aborts/signals attributed to the exact case: every string of up to 4 (thorough 5) fragments over a 24-fragment delimiter/quote/escape alphabet as template and as expression; every sequence of up to 3 (4) tags over 38 tags; every built-in and contrib filter/test/method x 8 receivers and every function x every argument tuple of arity <= 2 (3) over a 14-value boundary alphabet; 12 operators and 11 size-taking built-ins over all pairs of the edge value alphabet; 31 chain/nesting shapes at depths 150/151/2000/20000/200000 on the main thread and a 2 MiB thread in an opt-level-0 build (thorough also checked-release); every program of the depth-2 generator space with loop controls; 22 run-time value chains (a loop applies one lazy wrapping step - concatenation on either side, chain, slice, reverse, map, select, unique, dict merge, string and tuple concatenation, batch, zip - to an accumulator 33 / 1000 / 30 000 times, then the result is measured, iterated, compared, printed and dropped) in both builds; every string literal whose body is a sequence of at most 3 (4) pieces out of 28 escape forms; every format specification flags x width x precision x conversion x value (7 x 10 x 10 x 18 x 7, numbers up to 2^64) through the format filter and str.format; 15 kinds of objects that outlive the construct that made them (loop objects after exhaustion / break / recursion, caller, macros from loops and macros, self, namespaces, cycler, joiner) x 33 ways of using them afterwards. 1.5e6 cases quick. Further families: special calls and tags (super(), self.block(), caller(), loop, extends ...) in a template reached by include / import / from-import from 9 kinds of places; 25 collecting filters over 6 lazily repeated sequences just under and far over the accepted size; N distinct things of 20 kinds (filters, tests, locals, macro parameters, macros, blocks, arguments, keys, targets, includes ...) for 20 values of N around 32, 50, 64, 128, 256, 1000, 4096, 65536.",
         note="A timeout is recorded as inconclusive, never as a crash. Native-stack findings for unguarded chain recursion, self-referential namespaces, very deep data and repeated lazy slicing are recorded known findings. Inputs beyond the fragment/arity bounds and argument values off the boundary alphabet are not explored.",
         design_ref="2/C01",
     ),
@@ -117,7 +117,7 @@ CHECKS = {
         level="exploration",
         engine="E1-enum",
         technique="bounded-exhaustive enumeration of programs x every fuel budget from 0 to consumption+3 plus boundary budgets up to u64::MAX",
-        text="For every program of the depth-1 generator space, a fixed-stride subset of the depth-2 space, five multi-template families (include, include in a loop, extends+super, import/from-import of macros, three-level inheritance) and run-time failing variants, under 2 contexts: the unlimited render, the render under 10^6 (consumption c; consumed+remaining == budget at the end and at every probe() call placed inside included templates, macros and blocks, with strictly increasing consumption across probes, which exposes a second tracker in a nested evaluation), then every single budget 0..=c+3 must show exactly one threshold T = c+1 with OutOfFuel below and the unlimited result from T on, determinism at T and T-1, and 7 boundary budgets (2^31 ... 2^63-1, 2^63, 2^64-1).",
+        text="For every program of the depth-1 generator space, a fixed-stride subset of the depth-2 space, five multi-template families (include, include in a loop, extends+super, import/from-import of macros, three-level inheritance) and run-time failing variants, under 2 contexts: the unlimited render, the render under 10^6 (consumption c; consumed+remaining == budget at the end and at every probe() call placed inside included templates, macros and blocks, with strictly increasing consumption across probes, which exposes a second tracker in a nested evaluation), then every single budget 0..=c+3 must show exactly one threshold T = c+1 with OutOfFuel below and the unlimited result from T on, determinism at T and T-1, and 7 boundary budgets (2^31 ... 2^63-1, 2^63, 2^64-1). 16 programs in which a host function calls a macro or caller back and swallows its error check that the rest of the render stays metered.",
         note="Instruction-level accounting is not cross-checked against an independent instruction count (planned with the C05 hooks). The depth-2 space is visited by stride.",
         design_ref="2/C13",
     ),
@@ -125,7 +125,7 @@ CHECKS = {
         level="exploration",
         engine="E1-enum",
         technique="bounded-exhaustive enumeration of literal expressions x every subset of literal occurrences hoisted into variables (metamorphic literal/variable equivalence)",
-        text="All depth-1 expressions over 16 literals (incl. 2^63, 2^64-1, 2^127, 0.0, '', [], {}, none) x 18 binary operators, unary -/not, list/tuple/map displays (incl. two-entry maps over all pairs of 10 hashable literals, equal keys included) and literal keyword arguments, and all depth-2 expressions ((a o b) o c, a o (b o c), comparison chains, nested displays) over a core pool; for each, every non-empty subset of literal occurrences is replaced by a context variable holding the value the lexer produced for that literal and the result (Ok/Err, kind and text) must equal the constant-folded all-literal form (1.1e6 evaluations quick, 7.2e6 thorough). Every constant expression that fails at run time must load and stay silent inside `{% if false %}`.",
+        text="All depth-1 expressions over 16 literals (incl. 2^63, 2^64-1, 2^127, 0.0, '', [], {}, none) x 18 binary operators, unary -/not, list/tuple/map displays (incl. two-entry maps over all pairs of 10 hashable literals, equal keys included) and literal keyword arguments, and all depth-2 expressions ((a o b) o c, a o (b o c), comparison chains, nested displays) over a core pool; for each, every non-empty subset of literal occurrences is replaced by a context variable holding the value the lexer produced for that literal and the result (Ok/Err, kind and text) must equal the constant-folded all-literal form (1.1e6 evaluations quick, 7.2e6 thorough). Every constant expression that fails at run time must load and stay silent inside `{% if false %}`. Displays and keyword arguments whose items are unary or binary operations over literals are enumerated as well (an item that fails must make the display fail as it does at run time).",
         note="The oracle is the engine's own run-time evaluation of the hoisted form (differential between folder and VM), so a defect shared by both is invisible here (C08 covers arithmetic). Sequence repetition by counts >= 2^31 is excluded (lazy and unprintable).",
         design_ref="2/C04",
     ),
